@@ -24,6 +24,8 @@ CLAIMED = {
  "C09": (LEVEL + "Every exported method of the tree under test (enumerated at run time) is called on a read-only receiver with nested content; a deep snapshot of every configuration field, closure identity and nested instance is compared before/after by solver-decided assertions.", COMMON_NOTE),
  "C11": (LEVEL + "Every exported non-mutator is run with the engine's write log armed: any store into memory that existed before the call (receiver graph and package globals) is a violation on every explored path, which is what makes concurrent readers race-free; such a finding is confirmed natively by running the query from two goroutines under the Go race detector.", COMMON_NOTE + "; the concurrency claim is the inference no-write => no race among readers (Go memory model), not a free-running stress run"),
  "C06": (LEVEL + "One setter call from an arbitrary Condition state plus bounded setter histories; the built-in operator code offered is an 8-bit solver variable (the valid range 1..6 is found, not listed); Valid/String equivalence and the rendering grammar asserted in every state.", COMMON_NOTE),
+ "C07": (LEVEL + "Traverse is compared with a reference walker built only from Index/ConvertStack/ConvertCondition/Expression on enumerated tree shapes; every index of the path is an unconstrained 64-bit variable and every node's negative/forward index bits are symbolic.", COMMON_NOTE),
+ "C14": (LEVEL + "Each consultation of the installed push policy returns an arbitrary boolean (solver variable), so all accept/reject predicates over the batch are covered; a call log is compared with the documented consult-once-in-order-while-room-remains loop; closure verdicts for Valid/IsEqual are symbolic.", COMMON_NOTE),
 }
 _pending = "check not built yet in this round (solver-based harness planned, DESIGN.md §4); not a statement that the technique cannot apply"
 NA = {("C%02d" % i): _pending for i in range(1, 21) if ("C%02d" % i) not in CLAIMED}
